@@ -7,10 +7,11 @@ import os
 import random
 import re
 import shutil
+from pathlib import Path
 
 from harness import common, rules
 
-POOL = ["a", "ab", "a_b", "aa", "b", "ba", "c", "x1", "_a", "A"]
+POOL = ["a", "ab", "a_b", "aa", "b", "ba", "c", "x1", "_a", "A", "caf\u00e9"]
 EXTERNALS = ["os", "logging", "logging.handlers", "xml.etree.ElementTree", "loggingx", "handlers", "ab", "a", "proj2", "projx.y", "os.path",
              "logging_handlers", "loggingXhandlers.api", "os_path", "xml_etree.x"]     # look-alikes of dotted names (the dot read as "any character")
 
@@ -268,9 +269,19 @@ def render_v(v):
     return render_file(v["body"], v.get("style"))
 
 
+AWKWARD_PARENT = "w8.5 (q)+[z] \u00e9#"
+_MAT = [0]
+
+
 def materialise(dirs, files, sources=None):
     """-> base directory (digits only); root_path = base/<root>."""
     base = common.scratch_dir()
+    _MAT[0] += 1
+    if _MAT[0] % 4 == 0:
+        # every fourth project lives below a directory whose name has blanks, dots, brackets, a plus sign and a non-ASCII letter:
+        # nothing above the root directory may influence module names, exclusions are matched on the whole path
+        base = base / AWKWARD_PARENT
+        base.mkdir()
     for p in dirs:
         os.makedirs(os.path.join(base, *p), exist_ok=True)
     for f, v in files.items():
@@ -456,4 +467,5 @@ def has_ambiguous_imports(dirs, files, mp):
 
 
 def cleanup(base):
-    shutil.rmtree(base, ignore_errors=True)
+    base = Path(base)
+    shutil.rmtree(base.parent if base.name == AWKWARD_PARENT else base, ignore_errors=True)
